@@ -350,13 +350,109 @@ Definition lift_shift (m : mode) (o : shop) (sz csz : Z) (dst cnt : operand) : o
   | _ => None
   end.
 
+(* rol / ror: rotate by (masked count) mod size, as (x << k) | (x >> (size - k)) resp. (x >> k) | (x << (size - k));
+   only CF and OF are written (and kept for a zero masked count) *)
+Definition lift_rot (m : mode) (isl : bool) (sz csz : Z) (dst cnt : operand) : res (list operation) :=
+  la <- opl m sz dst ;; lb <- opl m csz cnt ;;
+  let lhs := snd la in let w := e_bits lhs in
+  c <- masked_count w (snd lb) ;;
+  rot <- mk_bin And c (expr_const (w - 1) w) ;;
+  oth <- mk_bin Sub (expr_const w w) rot ;;
+  x <- mk_bin (if isl then Shl else Shr) lhs rot ;;
+  y <- mk_bin (if isl then Shr else Shl) lhs oth ;;
+  res <- mk_bin Or x y ;;
+  fl <- (if isl then
+           cf <- mk_ext Trun 1 res ;; a1 <- flag_unless_zero X86Lift.n_CF c cf ;;
+           ms <- msb_expr res ;; of <- mk_bin Xor ms cf ;; a2 <- flag_unless_zero X86Lift.n_OF c of ;; Ok [a1; a2]
+         else
+           cf <- msb_expr res ;; a1 <- flag_unless_zero X86Lift.n_CF c cf ;;
+           sh <- mk_bin Shr res (expr_const (w - 2) w) ;; sec <- mk_ext Trun 1 sh ;;
+           of <- mk_bin Xor cf sec ;; a2 <- flag_unless_zero X86Lift.n_OF c of ;; Ok [a1; a2]) ;;
+  st <- ost m sz dst res ;;
+  Ok (fst la ++ fst lb ++ fl ++ st).
+Definition lift_shift_any (m : mode) (o : shop) (sz csz : Z) (dst cnt : operand) : option (res (list operation)) :=
+  match o with
+  | SRol => Some (lift_rot m true sz csz dst cnt)
+  | SRor => Some (lift_rot m false sz csz dst cnt)
+  | _ => lift_shift m o sz csz dst cnt
+  end.
+
+(* bt / bts / btr / btc with a register or immediate bit offset that is taken modulo the operand size (register base, or
+   memory base with an immediate offset).  An offset narrower than the base is zero-extended through temp 0. *)
+Definition lift_bt (m : mode) (o : btop) (sz : Z) (dst src : operand) : res (list operation) :=
+  la <- opl m sz dst ;;
+  lb <- opl m (match src with OImm _ => 8 | _ => sz end) src ;;
+  let base := snd la in let w := e_bits base in
+  let t0 := temp_k 0 w in let t1 := temp_k 1 w in
+  pr <- (if e_bits (snd lb) =? w then Ok ([], snd lb) else z <- mk_ext Zext w (snd lb) ;; Ok ([OAssign t0 z], EScalar t0)) ;;
+  off <- mk_bin And (snd pr) (expr_const (w - 1) w) ;;
+  sh <- mk_bin Shr base off ;;
+  match o with
+  | BtT => c <- mk_ext Trun 1 (EScalar t0) ;;
+           Ok (fst la ++ fst lb ++ fst pr ++ [OAssign t0 sh; assign_flag X86Lift.n_CF c])
+  | _ => c <- mk_ext Trun 1 (EScalar t1) ;;
+         one <- mk_bin Shl (expr_const 1 w) off ;;
+         e <- (match o with
+               | BtS => mk_bin Or base one
+               | BtR => x <- mk_bin Xor one (expr_const U64MAX w) ;; mk_bin And base x
+               | _ => mk_bin Xor base one end) ;;
+         st <- ost m sz dst e ;;
+         Ok (fst la ++ fst lb ++ fst pr ++ [OAssign t1 sh; assign_flag X86Lift.n_CF c] ++ st)
+  end.
+
 Definition regimm (o : operand) : bool := match o with OReg _ | ORegH _ | OImm _ => true | _ => false end.
 Definition isreg (o : operand) : bool := match o with OReg _ | ORegH _ => true | _ => false end.
+
+(* ---- the successor list translate_block derives for the instruction (address, guard); instructions that end in a Branch
+        operation leave through it (no successor needed); everything else falls through ---- *)
+Definition not_cond (e : expr) : expr := EBin Cmpeq e (expr_const 0 1).
+(* jcxz / jecxz: the count register at its own width is zero;  loop / loope / loopne: the decremented full-width count
+   register is not zero (and ZF = 1 / ZF = 0) *)
+Definition jcxz_cond (m : mode) (csz : Z) : res expr :=
+  cx <- opv m csz (OReg 1) ;; mk_bin Cmpeq cx (expr_const 0 csz).
+Definition loop_cond (m : mode) (k : Z) : res expr :=
+  cx <- opv m (wordsz m) (OReg 1) ;;
+  nz <- mk_bin Cmpneq cx (expr_const 0 (wordsz m)) ;;
+  if k =? 0 then Ok nz
+  else z <- mk_bin Cmpeq (EScalar (flag_scalar X86Lift.n_ZF)) (expr_const (if k =? 1 then 1 else 0) 1) ;; mk_bin And nz z.
+(* fall-through under the negated guard, target under the guard; one successor with the disjunction when both are the
+   same address (translate_block merges successors with equal addresses) *)
+Definition cond_succs (next t : Z) (e : expr) : list (Z * option expr) :=
+  if t =? next then [(t, Some (EBin Or (not_cond e) e))] else [(next, Some (not_cond e)); (t, Some e)].
+Definition mirror_succ (m : mode) (addr len : Z) (i : instr) : list (Z * option expr) :=
+  match i with
+  | IJmpRel t => [(t, None)]
+  | IRet _ | IRet0 | IJmpInd _ | ICallInd _ => []
+  | IJcc c t => match cc_condition c with Ok e => cond_succs (addr + len) t e | _ => [] end
+  | IJcxz csz t => match jcxz_cond m csz with Ok e => cond_succs (addr + len) t e | _ => [] end
+  | ILoop k t => match loop_cond m k with Ok e => cond_succs (addr + len) t e | _ => [] end
+  | _ => [(addr + len, None)]
+  end.
 
 Fixpoint number_ops (addr : Z) (i : Z) (ops : list operation) : list instruction :=
   match ops with [] => [] | o :: t => mkinstr i o (Some addr) :: number_ops addr (i + 1) t end.
 Definition one_block (addr : Z) (ops : list operation) : cfg :=
   mkcfg [mkblock 0 (Z.of_nat (length ops)) (number_ops addr 0 ops) []] [] 1 (Some 0) (Some 0).
+
+(* the three-block graph of a guarded instruction: head (nop) --c--> body --> exit, head --not c--> exit *)
+Definition diamond (addr : Z) (c : expr) (ops2 : list operation) : cfg :=
+  mkcfg [mkblock 0 1 [mkinstr 0 (ONop None) (Some addr)] []; mkblock 1 0 [] [];
+         mkblock 2 (Z.of_nat (length ops2)) (number_ops addr 0 ops2) []]
+        [mkedge 0 1 (Some (not_cond c)); mkedge 0 2 (Some c); mkedge 2 1 None] 3 (Some 0) (Some 1).
+Definition branch_nop (m : mode) (t : Z) : operation := ONop (Some (OBranch (expr_const t (wordsz m)))).
+
+(* ret (imm = -1 here: no operand) / ret imm16: temp := load(sp); sp := sp + word; (sp := sp + imm;) branch temp *)
+Definition lift_ret (m : mode) (imm : Z) : res (list operation) :=
+  let w := wordsz m in let sp := EScalar (sp_scalar m) in let t := temp_main w in
+  n1 <- mk_bin Add sp (expr_const (w / 8) w) ;;
+  n2 <- mk_bin Add sp (expr_const imm w) ;;
+  Ok ([OLoad t sp; OAssign (sp_scalar m) n1] ++ (if imm <? 0 then [] else [OAssign (sp_scalar m) n2]) ++ [OBranch (EScalar t)]).
+(* jmp r/m *)
+Definition lift_jmp_ind (m : mode) (src : operand) : res (list operation) :=
+  la <- opl m (wordsz m) src ;; Ok (fst la ++ [OBranch (snd la)]).
+(* loop*: the count register is decremented; the successors carry the guards *)
+Definition lift_loop (m : mode) : res (list operation) :=
+  cx <- opv m (wordsz m) (OReg 1) ;; d <- mk_bin Sub cx (expr_const 1 (wordsz m)) ;; ops_store m (wordsz m) (OReg 1) d.
 
 Definition mirror_instr (m : mode) (addr : Z) (i : instr) : option (res cfg) :=
   let wrap (r : res (list operation)) : res cfg := ops <- r ;; Ok (one_block addr ops) in
@@ -377,8 +473,17 @@ Definition mirror_instr (m : mode) (addr : Z) (i : instr) : option (res cfg) :=
   | IXadd sz a b => if isreg b && (isreg a || (is_mem a && opnd_mirrored m a)) then Some (wrap (lift_xadd m sz a b)) else None
   | IImul2 sz dst src => if isreg src || (is_mem src && opnd_mirrored m src) then Some (wrap (lift_imul m sz dst (OReg dst) src)) else None
   | IImul3 sz dst src imm => if isreg src || (is_mem src && opnd_mirrored m src) then Some (wrap (lift_imul m sz dst src (OImm imm))) else None
-  | IShift o sz dst cnt => if (isreg dst || (is_mem dst && opnd_mirrored m dst)) && regimm cnt then option_map wrap (lift_shift m o sz 8 dst cnt) else None
-  | IShift1 o sz dst => if isreg dst || (is_mem dst && opnd_mirrored m dst) then option_map wrap (lift_shift m o sz sz dst (OImm 1)) else None
+  | IShift o sz dst cnt => if (isreg dst || (is_mem dst && opnd_mirrored m dst)) && regimm cnt then option_map wrap (lift_shift_any m o sz 8 dst cnt) else None
+  | IShift1 o sz dst => if isreg dst || (is_mem dst && opnd_mirrored m dst) then option_map wrap (lift_shift_any m o sz sz dst (OImm 1)) else None
+  | IJmpRel t => Some (Ok (one_block addr [branch_nop m t]))
+  | IJmpInd src => if isreg src || (is_mem src && opnd_mirrored m src) then Some (wrap (lift_jmp_ind m src)) else None
+  | IRet imm => if 0 <=? imm then Some (wrap (lift_ret m imm)) else None
+  | IRet0 => Some (wrap (lift_ret m (-1)))
+  | ILoop k t => Some (wrap (lift_loop m))
+  | IJcc c t => Some (e <- cc_condition c ;; Ok (diamond addr e [branch_nop m t]))
+  | IJcxz csz t => Some (e <- jcxz_cond m csz ;; Ok (diamond addr e [branch_nop m t]))
+  | IBt o sz dst src => if (isreg dst && regimm src) || (is_mem dst && opnd_mirrored m dst && match src with OImm _ => true | _ => false end)
+                        then Some (wrap (lift_bt m o sz dst src)) else None
   | IMovx sg dsz ssz dst src => if isreg src then Some (wrap (lift_movx m sg dsz ssz dst src))
                                 else if is_mem src then option_map wrap (lift_movx_load m sg dsz ssz dst src) else None
   | _ => None
